@@ -95,6 +95,19 @@ Args == {[NoArg EXCEPT !.k = "sev", !.v = v] : v \in 1..NSev}
    \cup {[NoArg EXCEPT !.k = "attrs", !.m = m] : m \in AttrMaps}
    \cup {[NoArg EXCEPT !.k = "event", !.v = v, !.nm = n] : v \in 1..NEv, n \in 0..NName}
 
+\* the same set as a predicate (trace validation: membership without enumerating Args)
+IsArg(a) ==
+  CASE a.k = "sev"   -> a.v \in 1..NSev /\ a.nm = 0 /\ a.m = <<>>
+    [] a.k = "body"  -> a.v \in 1..NBody /\ a.nm = 0 /\ a.m = <<>>
+    [] a.k = "ts"    -> a.v \in 1..NTs /\ a.nm = 0 /\ a.m = <<>>
+    [] a.k \in {"ctx", "sid", "tid"} -> a.v \in 1..NId /\ a.nm = 0 /\ a.m = <<>>
+    [] a.k = "flags" -> a.v \in 1..NFl /\ a.nm = 0 /\ a.m = <<>>
+    [] a.k = "attrs" -> /\ a.v = 0 /\ a.nm = 0 /\ DOMAIN a.m = AttrKeys
+                        /\ \A k \in AttrKeys : a.m[k] \in 0..NAV
+                        /\ Cardinality({k \in AttrKeys : a.m[k] # 0}) <= MaxMap
+    [] a.k = "event" -> a.v \in 1..NEv /\ a.nm \in 0..NName /\ a.m = <<>>
+    [] OTHER -> FALSE
+
 SpanTid(s) == s
 SpanFl(s)  == s % 2
 ExplId(i)  == 10 + i
@@ -194,7 +207,7 @@ ApplyFlags(rc, a) ==
   (IF a.k \in {"sid", "tid", "flags"} /\ rc.span0 # 0 THEN {"partial_identity"} ELSE {}) \cup
   (IF a.k = "attrs" /\ \A k \in AttrKeys : a.m[k] = 0 THEN {"empty_attrs"} ELSE {})
 Set(t, r, a) ==
-  /\ Alive /\ cur[t].mode = "idle" /\ r \in 1..Len(recs) /\ a \in Args
+  /\ Alive /\ cur[t].mode = "idle" /\ r \in 1..Len(recs) /\ IsArg(a)
   /\ recs[r].t = t /\ recs[r].st = "open" /\ recs[r].nset < MaxSets
   /\ recs' = [recs EXCEPT ![r] = [Apply(@, a, TRUE) EXCEPT !.nset = @ + 1]]
   /\ UNCHANGED <<pipe, res, spans, scopeIds, nscope, cur, pending, exported, nflush, nnull, crashed, devUsed>>
@@ -232,7 +245,7 @@ BeginEmitNull(t, lg) ==
 
 (* ---- ... the next argument of the pack is folded in (left to right) ...     *)
 Arg(t, a) ==
-  /\ Alive /\ cur[t].mode # "idle" /\ Len(cur[t].args) < MaxArgs /\ a \in Args
+  /\ Alive /\ cur[t].mode # "idle" /\ Len(cur[t].args) < MaxArgs /\ IsArg(a)
   /\ cur' = [cur EXCEPT ![t].args = Append(@, a)]
   /\ recs' = IF cur[t].mode = "null" THEN recs ELSE [recs EXCEPT ![cur[t].r] = Apply(@, a, FALSE)]
   /\ UNCHANGED <<pipe, res, spans, scopeIds, nscope, pending, exported, nflush, nnull, crashed, devUsed>>
@@ -277,7 +290,7 @@ EndEmit(t) ==
 (* ---- LoggerProvider::ForceFlush: batch processors export what is queued ---- *)
 Drain(alias) == [p \in Procs |-> [i \in 1..Len(pending[p]) |-> Snapshot(pending[p][i], recs[pending[p][i]], alias)]]
 Flush ==
-  /\ Alive /\ nflush < MaxFlush
+  /\ Alive /\ (nflush < MaxFlush \/ (Hist /\ Len(hist) >= GenDepth - 1))    \* (the closing flush is free)
   /\ exported' = [p \in Procs |-> exported[p] \o Drain(AliasDev)[p]]
   /\ pending' = [p \in Procs |-> <<>>]
   /\ nflush' = nflush + 1
@@ -330,7 +343,8 @@ CountX(sq, r) == Cardinality({i \in 1..Len(sq) : sq[i].r = r})
 ExactlyOncePerProcessor ==
   \A p \in Procs : \A r \in 1..Len(recs) :
     LET n == CountX(exported[p], r) + Count(pending[p], r) IN
-    IF recs[r].st = "done" /\ ~recs[r].noop THEN n = 1 /\ (pipe[p] # "batch" => CountX(exported[p], r) = 1)
+    IF recs[r].st \in {"done", "lost"} /\ ~recs[r].noop      \* "lost": the emitting call crashed (deviation)
+      THEN n = 1 /\ (pipe[p] # "batch" => CountX(exported[p], r) = 1)
     ELSE n = 0
 CorrelationRule ==
   \A p \in Procs : \A i \in 1..Len(exported[p]) :
@@ -341,7 +355,8 @@ CorrelationRule ==
 DisabledEmitsNothing ==
   \A p \in Procs : /\ \A i \in 1..Len(exported[p]) : ~recs[exported[p][i].r].noop
                    /\ \A i \in 1..Len(pending[p]) : ~recs[pending[p][i]].noop
-TypeOK == /\ \A p \in Procs : \A i \in 1..Len(pending[p]) : pending[p][i] \in 1..Len(recs)
+TypeOK == /\ \A a \in Args : IsArg(a)
+          /\ \A p \in Procs : \A i \in 1..Len(pending[p]) : pending[p][i] \in 1..Len(recs)
           /\ \A t \in Threads : cur[t].mode \in {"idle", "rec", "new", "null"}
 \* AsImplemented (Dev = the known deviations): every way of breaking the property goes through one
 AsImplemented == (ExportedEqualsEmitted /\ ExactlyOncePerProcessor) \/ devUsed # {}
@@ -355,6 +370,9 @@ View == <<bvars, flags>>
 Bound == Len(hist) <= GenDepth
 \* a behaviour ends with a Flush made by the closing step, so that nothing is left queued
 Closing == (Len(hist) >= GenDepth - 1) => last'.op = "Flush"
+\* generation only: most random walks stay away from the argument that kills the process in the unchanged
+\* tree (the rest of such a behaviour cannot be replayed); the witness and one walk shape keep it
+NoNamelessArg == ~(last'.op = "Arg" /\ last'.a.k = "event" /\ last'.a.nm = 0)
 EmitAll == (Len(hist) = GenDepth /\ last.op = "Flush") => PrintT(<<"BEH", ToJson(hist)>>)
 Wit(f) == (f \in flags /\ last.op = "Flush") => (PrintT(<<"BEH", ToJson(hist)>>) /\ FALSE)
 WitAliasSync     == Wit("alias_sync")
